@@ -622,7 +622,9 @@ def _episode(w, sc):
     from cobald.daemon.runners.service import ServiceRunner
 
     w.ended.clear()
-    if sc.get("runner", "service") == "meta":
+    if sc.get("reuse_runner") and w.runner is not None:
+        pass  # the same runner instance is started again
+    elif sc.get("runner", "service") == "meta":
         w.runner = MetaRunnerAdapter()
     else:
         w.runner = ServiceRunner(accept_delay=sc.get("accept_delay", 0.01))
@@ -639,8 +641,53 @@ def _episode(w, sc):
         t.start()
         drivers.append(t)
     outcome = {}
+    barrier = None
+    if sc.get("simultaneous"):
+        # two runners call accept() at the same moment: one must win, the other must be rejected at once
+        other = ServiceRunner(accept_delay=sc.get("accept_delay", 0.01))
+        barrier = threading.Barrier(2)
+        helper_out = outcome["helper"] = {}
+
+        def helper():
+            try:
+                barrier.wait(10)
+            except threading.BrokenBarrierError:
+                pass
+            helper_out["t_begin"] = w.now()
+            try:
+                other.accept()
+                helper_out["how"] = "returned"
+            except BaseException as e:  # noqa
+                helper_out["how"] = "raised"
+                helper_out["type"] = type(e).__name__
+                helper_out["repr"] = safe_repr(e)
+            helper_out["t_end"] = w.now()
+
+        def closer():
+            end = time.monotonic() + 10
+            while not (w.runner.running.is_set() or other.running.is_set()) and time.monotonic() < end:
+                time.sleep(0.001)
+            outcome["winner"] = "main" if w.runner.running.is_set() else "helper" if other.running.is_set() else None
+            time.sleep(sc["simultaneous"].get("run_ms", 40) / 1000)
+            outcome["both_running"] = w.runner.running.is_set() and other.running.is_set()
+            for r in (w.runner, other):
+                try:
+                    r.shutdown()
+                except BaseException as e:  # noqa
+                    outcome.setdefault("shutdown_errors", []).append(safe_repr(e))
+
+        for fn in (helper, closer):
+            t = threading.Thread(target=fn, daemon=True)
+            t.start()
+            drivers.append(t)
     t_begin = w.now()
     signal.signal(signal.SIGINT, signal.default_int_handler)
+    if barrier is not None:
+        try:
+            barrier.wait(10)
+        except threading.BrokenBarrierError:
+            pass
+        t_begin = w.now()
     try:
         try:
             w.runner.accept()
@@ -663,6 +710,29 @@ def _episode(w, sc):
     return outcome, drivers
 
 
+def install_trace_delay(spec):
+    """schedule perturbation owned by the harness: sleep at every line of the named source files, with a
+    different delay per thread, so that threads interleave at line granularity inside those (small) modules"""
+    files = tuple(spec["files"])
+    delays = spec["delays_ms"]
+    main_id = threading.main_thread().ident
+
+    def local(frame, event, arg):
+        if event == "line":
+            d = delays[0] if threading.get_ident() == main_id else delays[1 + (threading.get_ident() % (len(delays) - 1))]
+            if d:
+                time.sleep(d / 1000)
+        return local
+
+    def tracer(frame, event, arg):
+        if event == "call" and frame.f_code.co_filename.endswith(files):
+            return local
+        return None
+
+    threading.settrace(tracer)
+    sys.settrace(tracer)
+
+
 def _child(scenario, wfd):
     signal.signal(signal.SIGINT, signal.default_int_handler)
     logging.getLogger().handlers = [logging.NullHandler()]
@@ -670,6 +740,8 @@ def _child(scenario, wfd):
     if scenario.get("switchinterval"):
         sys.setswitchinterval(scenario["switchinterval"])
     w = World(scenario)
+    if scenario.get("trace_delay"):
+        install_trace_delay(scenario["trace_delay"])
     bound = scenario.get("bound_s", 20)
     done = threading.Event()
     result = {"hang": False}
